@@ -941,7 +941,7 @@ def make_case(rng, kind, K, refine_p, klass=None):
         else:
             case['fu'] = rng.choice(['absent', 'absent', 'absent', 'flam', 'flam_unit', 'foo', 'none_explicit'])
             case['xkw'] = rng.choice([None, 'area', 'area', 'bogus'])
-    if rng.random() < 0.35:
+    if rng.random() < 0.5:
         add_history(rng, case, lattice)
     if analytic or err:
         if kind in FALLBACK:
@@ -1081,7 +1081,7 @@ RULE = ('every model class of the running package (Model subclasses in synphot.m
         'is read from the Lean model (10: box, constant, Gaussian, Gaussian-flux, Lorentzian, Ricker/MexicanHat, power law, trapezoid, '
         'black body, normalised black body) x source/bandpass x amplitude '
         'unit (PHOTLAM, FLAM, PHOTNU, FNU, Jy, mJy, STmag, ABmag where the model takes one) x conf.default_integrator in '
-        '{trapezoid, analytical} x integration_type in {analytical, None, trapezoid, 7 unknown names} x keyword options of the call (45% of the cases, 70% for the models without integrate(): flux_unit in {absent, None, photlam/PHOTLAM/units.PHOTLAM, flam/FLAM/units.FLAM, fnu, Jy, count, Angstrom, an unparsable name} x {no other keyword, area=, an unknown keyword}; the explicit-trapezoid twin of a fallback gets the same keywords); 35% of the cases with parameters are histories: the object is built with other values, optionally integrated once, then one or more parameters are re-assigned (sp.model.<p> = v, sp.model.<p>.value = v, sp.z = z) to the values the model receives; amplitudes 0 or '
+        '{trapezoid, analytical} x integration_type in {analytical, None, trapezoid, 7 unknown names} x keyword options of the call (45% of the cases, 70% for the models without integrate(): flux_unit in {absent, None, photlam/PHOTLAM/units.PHOTLAM, flam/FLAM/units.FLAM, fnu, Jy, count, Angstrom, an unparsable name} x {no other keyword, area=, an unknown keyword}; the explicit-trapezoid twin of a fallback gets the same keywords); half of the cases with parameters are histories: the object is built with other values, optionally integrated once, then one or more parameters are re-assigned (sp.model.<p> = v, sp.model.<p>.value = v, sp.z = z) to the values the model receives; amplitudes 0 or '
         'log-uniform over 28 decades (sources) / 7 decades (bandpasses); centres log-uniform 200..1e5 A, widths 3e-5..0.4 of the '
         'centre; power-law index: the singular one exactly (1 per wavelength, -1 per frequency; 20%), singular +- 2^-k for k = 2..20 (20%), integers and reals in [-4, 6]; temperatures '
         '30..3e5 K; explicit limits of every peaked / ranged model (Lorentz, Gaussians, Ricker, box, trapezoid, constant, power law) drawn from '
